@@ -29,7 +29,7 @@ META = {
             "C13/C14 (font info, numbers), C15 (groups, kerning) and the plist/XML layer hypotheses; an instance of the "
             "laws is exhibited. Known-finding classes are exactly the complements of the parts' validity (wf).",
 }
-COQ_TARGETS = ["Props/C01.vo", "Run/C01.vo", "Run/FontFiles.vo", "Proofs/FontInfoFileP.vo"]
+COQ_TARGETS = ["Props/C01.vo", "Run/C01.vo", "Run/FontFiles.vo", "Proofs/FontInfoFileP.vo", "Proofs/FontInfoViewP.vo"]
 PROPS_FILES = ["C01"]
 TRUSTED = [
     "model Model/FontRT.v hand-written from src/font.rs, src/layer.rs, src/fontinfo.rs (object libs); tied by the "
